@@ -190,7 +190,7 @@ func c12History(t *testing.T, r *kit.Run, hi int, h *history, p *plan, ao annOpt
 	if h.parent.typ == tRel {
 		o.Probe("relation-parent")
 	}
-	if h.regime == "pre" {
+	if h.regime != "commit" {
 		o.Probe("pre-commit-regime")
 	}
 	if first >= 0 {
@@ -288,6 +288,16 @@ func c12Diff(a, b []pver) (class, msg string) {
 		}
 		na, nb := normUpdates(a[i].updates), normUpdates(b[i].updates)
 		if canonUpdates(na) == canonUpdates(nb) {
+			sameKeys := len(a[i].updates) == len(b[i].updates)
+			for k := 0; sameKeys && k < len(a[i].updates); k++ {
+				x, y := a[i].updates[k], b[i].updates[k]
+				if x.Index != y.Index || !x.Timestamp.Equal(y.Timestamp) {
+					sameKeys = false
+				}
+			}
+			if !sameKeys {
+				return "update-order-differs", fmt.Sprintf("parent v%d (%d updates): [%s] vs [%s]", a[i].version, len(a[i].updates), shortUpdates(a[i].updates), shortUpdates(b[i].updates))
+			}
 			return "order-of-updates-sharing-index-and-timestamp", fmt.Sprintf("parent v%d (%d updates): [%s] vs [%s]", a[i].version, len(a[i].updates), shortUpdates(a[i].updates), shortUpdates(b[i].updates))
 		}
 		return "update-sets-differ", fmt.Sprintf("parent v%d: [%s] vs [%s]", a[i].version, shortUpdates(a[i].updates), shortUpdates(b[i].updates))
